@@ -173,6 +173,18 @@ def roundtrip(x):
         if strip(d1, is_output) != strip(d2, is_output):
             return ("reserialise", f"{cls.__name__}: to_dict() of the copy differs: {json.dumps(strip(d1, is_output))[:300]} -> "
                     f"{json.dumps(strip(d2, is_output))[:300]}")
+        # the same text read a SECOND time after the first copy was edited in place (colours added on both of its trees, its
+        # object root renamed): the second copy must come from the text alone
+        yin = y.input if is_output else y
+        yin.species_lca.tree.add_feature("color", "ABCDEF")
+        yin.object_tree.add_feature("color", "FEDCBA")
+        yin.object_tree.name = yin.object_tree.name + "_edited"
+        z = cls.from_dict(json.loads(text))
+        bad = compare(x, z, is_output, is_super)
+        if bad:
+            return ("second_read", f"{cls.__name__}: the same text read again after the first copy was edited: {bad}")
+        if strip(d1, is_output) != strip(z.to_dict(), is_output):
+            return ("second_read", f"{cls.__name__}: the same text read again after the first copy was edited serialises differently")
     except Exception as exc:
         return ("exception", f"{cls.__name__}: {type(exc).__name__}: {exc}\n{traceback.format_exc(limit=5)}")
     return None
@@ -198,6 +210,14 @@ def build_objects(spec):
     inp.costs.clear()
     inp.costs.update(float_costs(costs))
     objs = [inp]
+    if fam == "ordered" and leafsyn:
+        # the same input with the order of the root prescribed: leaf_syntenies then carries an entry for the root as well
+        ro = ordered.root_orders(leafsyn)
+        if ro:
+            inp_r, _, _ = A.build_input(O, S, leafmap, costs, leafsyn, onames, snames, ofe, sfe, rootsyn=sorted(ro)[-1])
+            inp_r.costs.clear()
+            inp_r.costs.update(float_costs(costs))
+            objs.append(inp_r)
     src = spec["source"]
     if src == "input":
         return objs
